@@ -272,6 +272,10 @@ pub struct World<A: App> {
     /// Drop mask over emission indices `mask_base..mask_base+64`
     pub drop_mask: u64,
     pub mask_base: u64,
+    /// Drop mask over the emissions of ONE node: (node, first per-node emission index, mask)
+    pub node_mask: Option<(usize, u64, u64)>,
+    /// Datagrams emitted so far, per node
+    pub emitted_by: Vec<u64>,
     /// Source address rewrite for emitted datagrams: (node, from emission idx) -> new source
     pub src_rewrite: Vec<(usize, u64, SocketAddr)>,
     pub recs: Vec<Rec>,
@@ -328,6 +332,8 @@ impl<A: App> World<A> {
             fates: BTreeMap::new(),
             drop_mask: 0,
             mask_base: 0,
+            node_mask: None,
+            emitted_by: vec![],
             src_rewrite: Vec::new(),
             recs: Vec::new(),
             keep_data: true,
@@ -438,6 +444,16 @@ impl<A: App> World<A> {
         let idx = self.emitted;
         self.emitted += 1;
         let mut fate = self.fate_of(idx);
+        if self.emitted_by.len() <= node {
+            self.emitted_by.resize(node + 1, 0);
+        }
+        let k = self.emitted_by[node];
+        self.emitted_by[node] += 1;
+        if let Some((n, base, m)) = self.node_mask {
+            if n == node && k >= base && k < base + 64 && (m >> (k - base)) & 1 == 1 && !self.fates.contains_key(&idx) {
+                fate = Fate::Drop;
+            }
+        }
         let mut src = self.nodes[node].addr;
         for &(n, from, a) in &self.src_rewrite {
             if n == node && idx >= from {
